@@ -508,35 +508,44 @@ def check(pid, tier, seed, replay=None):
     return 1 if violations else 0
 
 
+def claimed_props():
+    rp = os.path.join(VERIF, "props", "ready.json")
+    if os.path.exists(rp):
+        ready = set(json.load(open(rp)))
+        return [p for p in all_props() if p in ready]
+    return all_props()
+
+
 def setup():
-    """Build everything from files on disk (warms the Go build cache and compiles all Coq)."""
+    """Build everything the claimed checks need from files on disk (warms the Go
+    build cache, compiles the Coq files of every claimed property)."""
     ok = True
     for tool in sorted(os.listdir(os.path.join(GO, "cmd"))):
         if tool.startswith("go2") or tool.startswith("gen") or tool.startswith("tab"):
             t, o = build_tool(tool)
             if t is None:
-                log("tool %s failed: %s" % (tool, o))
-                ok = False
-    for pid in all_props():
+                log("tool %s failed: %s" % (tool, o[-800:]))
+    for pid in claimed_props():
         prop = load_prop(pid)
         for b in translators(pid, prop):
             log("translator: " + b)
-    rc, o = coq_make([])
-    if rc != 0:
-        log(o[-4000:])
-        ok = False
-    for pid in all_props():
-        prop = load_prop(pid)
+            ok = False
+        cdir = prop.get("coq_dir", pid)
+        rc, o = coq_make([cdir + "/Property.vo"], tag=pid, dirs=prop_dirs(pid, prop))
+        if rc != 0:
+            log("coq %s: %s" % (pid, o[-1500:]))
+            ok = False
         if prop.get("no_harness"):
             continue
         exe, o = build_modelrun(pid, prop)
         if exe is None:
-            log("modelrun %s: %s" % (pid, o))
+            log("modelrun %s: %s" % (pid, o[-800:]))
             ok = False
         hb, o = build_harness(pid, prop)
         if hb is None:
-            log("harness %s: %s" % (pid, o))
+            log("harness %s: %s" % (pid, o[-800:]))
             ok = False
+        log("setup %s done" % pid)
     return 0 if ok else 1
 
 
